@@ -99,7 +99,7 @@ fn run_g<C: Codec>(c: &Case, trace: bool) -> RunOut {
             match &fe {
                 Fe::Ok { pkt, total: t, .. } => {
                     if pkt != p {
-                        out.violate(sig("wrong-packet"), format!("packet {i} of {}: decoded {pkt:?}, sent {p:?}", sent.len()));
+                        out.violate(sig("wrong-packet"), format!("packet {i} of {}: decoded {}, sent {p:?}", sent.len(), safe_debug(pkt)));
                         ok = false;
                     }
                     let delta = rd.pos - before;
@@ -199,7 +199,7 @@ fn run_g<C: Codec>(c: &Case, trace: bool) -> RunOut {
                             break;
                         }
                         if pkt != p {
-                            out.violate(sig("wrong-packet"), format!("packet {i} of {}: decoded {pkt:?}, sent {p:?}", sent.len()));
+                            out.violate(sig("wrong-packet"), format!("packet {i} of {}: decoded {}, sent {p:?}", sent.len(), safe_debug(pkt)));
                             ok = false;
                             break;
                         }
